@@ -48,8 +48,9 @@ structure Reply where
   model : Json
   holds : Bool
   info : Json := Json.null     -- optional diagnostics (e.g. which glyphs fail), used to classify failures
+  hyp : Json := Json.null      -- optional: did this input satisfy the hypotheses of the property's main theorem?
 
 def Reply.toJson (r : Reply) : Json :=
-  Json.mkObj [("model", r.model), ("holds", Json.bool r.holds), ("info", r.info)]
+  Json.mkObj [("model", r.model), ("holds", Json.bool r.holds), ("info", r.info), ("hyp", r.hyp)]
 
 end Ufo2ft.Drv
